@@ -143,6 +143,11 @@ static void sets(int n, std::vector<Str> &srcs, std::vector<Str> &bases) {
       for (auto a : { "//1.2.3.5", "//[::2]", "//[1::1]", "//[v1.b]", "//H", "//v1.a", "//v1.b", "//u@v1.a", "//u@1.2.3.4", "//1.2.3.4:1", "//[::1]:1", "//u@[::1]", "//u@[v1.a]:1" /* IP literals with user info / port; and v1.a: a registered name spelled like the IPvFuture literal [v1.a] */ }) for (auto &p : p2) for (auto q : { "", "?q" }) {
           Str body = Str(a) + p + q; if (!ref::is_uri_reference("s:" + body)) continue;
           if (seen_b.insert("s:" + body).second) bases.push_back("s:" + body); if (seen_s.insert("s:" + body).second) srcs.push_back("s:" + body); } }
+    // segments whose inside matters to the guards of reference creation: a colon behind a character that cannot be part of a scheme,
+    // and segments of equal length that differ only in their last character (sources only; every base above is paired with them)
+    for (auto seg : { "x_y:z", "%3A:b", "k=v:w", "a@b:c", "item-17", "item-18", "2023", "2024" }) for (auto pre : { "s://h/", "s://h/a/", "s://h/item-17/", "s:/a/", "s:/", "s:a/", "s:" }) {
+        Str s1 = Str(pre) + seg; if (!ref::is_uri_reference(s1)) continue; if (seen_s.insert(s1).second) srcs.push_back(s1); Str s2 = s1 + "/x?q"; if (seen_s.insert(s2).second) srcs.push_back(s2);
+        if (seen_b.insert(s1).second) bases.push_back(s1); }
     for (auto s : { "a", "/a", "//h/a", "" }) { srcs.push_back(s); bases.push_back(s); }
 }
 
